@@ -9,6 +9,7 @@ func init() {
 		checkDecryptHelper(c, "C14")
 		// receivers try every installed key; keys come from the keyring
 		checkKeyUse(c)
+		checkKeyHandling(c, "C14")
 		checkAADConcat(c, "C14")
 		checkRemoveExact(c)
 		// the ring never holds a key twice (RemoveKey drops one copy): every list handed to the
